@@ -8,6 +8,7 @@ simulates a *new* frame), `advanceLockstepFrame` is `advance_lockstep_frame`, `l
 import GgrsModel.Model.P2P
 import GgrsModel.Proofs.Shape
 import GgrsModel.Proofs.Session
+import GgrsModel.Proofs.Lockstep
 
 namespace Ggrs
 
@@ -193,5 +194,38 @@ theorem C04_window_all (x y : P2P × TLState) (h0 : ∃ gh, SessInv x.1 gh x.2 [
       y.1.sync.currentFrame - ((gh'.specs p).vals.length - 1 : Int) ≤ y.1.maxPrediction := by
   obtain ⟨gh, h⟩ := SessInv_run x y h0 hrun
   exact window_all y.1 s' gh y.2 [] reqs' now h hadv hnew
+
+end Ggrs
+
+namespace Ggrs
+
+/-- **C04, lockstep never speculates — every schedule (no disconnected players).** Start from any
+state satisfying the lockstep invariant (a freshly built session does: `LkInv_init`) and run ANY
+interleaving of remote-input arrivals and `advance_lockstep_frame` calls, the game executing every
+request list. Then (1) every row of the game's timeline below the current frame is the full row
+of every player's real input, each with status Confirmed — nothing was ever predicted; and (2) one
+more call returns either no request at all (a player's input for the current frame is missing:
+the frame is not consumed) or exactly one AdvanceFrame carrying the full row of real, Confirmed
+inputs of the current frame — never a SaveGameState, never a LoadGameState, so nothing is ever
+re-simulated. -/
+theorem C04_lockstep_all (x y : P2P × TLState) (h0 : ∃ gh, LkInv x.1 gh x.2) (hrun : LkStar x y) :
+    ∃ gh, LkInv y.1 gh y.2 ∧
+      (∀ f : Nat, (f : Int) < y.1.sync.currentFrame → y.2.R f = rowOf gh y.1.sync.queues.length f) ∧
+      ∀ (now : Nat) (s' : P2P) (reqs' : List Request), y.1.advanceLockstepFrame now [] = .ok (s', reqs') →
+        ∃ gh', LkInv s' gh' (execReqs y.2 reqs') ∧
+          ((reqs' = [] ∧ s'.sync.currentFrame = y.1.sync.currentFrame) ∨
+           (∃ c : Nat, y.1.sync.currentFrame = (c : Int) ∧
+             reqs' = [.advance (rowOf gh' y.1.sync.queues.length c)] ∧
+             s'.sync.currentFrame = y.1.sync.currentFrame + 1)) := by
+  obtain ⟨gh, h⟩ := LkInv_run x y h0 hrun
+  refine ⟨gh, h, h.timeline, ?_⟩
+  intro now s' reqs' hadv
+  obtain ⟨gh', h', hcase, _⟩ := lockstepTick_spec y.1 s' gh y.2 now reqs' h hadv
+  exact ⟨gh', h', hcase⟩
+
+/-- The hypotheses are met by a freshly built session. -/
+example (s : P2P) (R : Nat → List (Input × InputStatus)) (n : Nat)
+    (hq : s.sync.queues = List.replicate n InputQueue.new) (hst : s.localConnectStatus = List.replicate n {})
+    (hc : s.sync.currentFrame = 0) : ∃ gh, LkInv s gh ⟨0, R⟩ := ⟨_, LkInv_init s R n hq hst hc⟩
 
 end Ggrs
